@@ -8,14 +8,15 @@ SPECS = tlc.SPECS
 
 def iteration_events(pidx, trace, end, pb=-1):
     ev = [{"k": "reset", "p": pidx, "pb": pb}]
-    for (t, pc, res) in trace:
-        ev.append({"k": "op", "t": t, "pc": pc, "res": -1 if res is None else res})
+    for e in trace:
+        t, pc, res = e[0], e[1], e[2]
+        ev.append({"k": "op", "t": t, "pc": pc, "res": -1 if res is None else res, "spur": e[3] if len(e) > 3 else -1})
     ev.append({"k": "end", "e": end})
     return ev
 
 
 def end_event_kind(end):
-    if end in ("ok", "deadlock", "race", "panic") or end.startswith("leak:"):
+    if end in ("ok", "deadlock", "race", "panic", "usage") or end.startswith("leak:"):
         return end
     return "cut"
 
@@ -75,7 +76,7 @@ def validate(ctx, progs, results, cfgname="MCTrace_upper.cfg", label="trace", sk
             continue
         for k, tr in enumerate(r.get("traces", [])):
             iters.append(({"prog": i, "trace": k, "end": "ok"}, iteration_events(i + 1, tr, "ok", pb_of(i))))
-        if include_fail and r["end"] != "ok" and (r.get("fail_trace") or r["end"] in ("deadlock", "race", "panic")):
+        if include_fail and r["end"] != "ok" and (r.get("fail_trace") or r["end"] in ("deadlock", "race", "panic", "usage")):
             e = end_event_kind(r["end"])
             iters.append(({"prog": i, "trace": "fail", "end": e}, iteration_events(i + 1, r.get("fail_trace", []), e, pb_of(i))))
     if not iters:
